@@ -94,7 +94,8 @@ def stmt(s, inc_names, indent=""):
     if k == "ascii":
         return [indent + '\t.ascii "' + "".join(chr(b) for b in s["bs"]) + '"']
     if k == "asciic":
-        parts = [('"' + "".join(chr(b) for b in c["q"]) + '"') if "q" in c else ("<" + expr(c["e"]) + ">") for c in s["cs"]]
+        parts = [('"' + "".join(chr(b) for b in c["q"]) + '"') if "q" in c else ('"' + "".join(chr(b) for b in c["u"]) + '"') if "u" in c
+                 else ("<" + expr(c["e"]) + ">") for c in s["cs"]]
         return [indent + "\t.ascii " + " ".join(parts)]
     if k == "label":
         return [indent + s["n"] + ("::" if s["x"] else ":")]
@@ -289,7 +290,9 @@ def replay(task):
             continue
         done.add(key)
         to = 1.0 if rec.get("cyc") else opts.get("timeout", 5.0)
-        r = asm(srcs, fs=fs, timeout=to, listing=opts.get("check_syms", True))
+        # non-ASCII quoted text ("u" chunks) is specified for the UTF-8 output charset
+        charset = "utf-8" if any(s_["k"] == "asciic" and any("u" in c for c in s_["cs"]) for f in rec["files"] for s_ in walk(f, inc)) else "bk"
+        r = asm(srcs, fs=fs, timeout=to, listing=opts.get("check_syms", True), charset=charset)
         want_ok = bool(run["ok"]) and rec["own"] != "err"
         p = None
         if r["outcome"] in ("hang", "exception"):
